@@ -172,67 +172,7 @@ func TestVerifC18(t *testing.T) {
 	// zero and is about to clear the deadline while another request is sent. Afterwards one request is outstanding: the
 	// deadline must be armed, and a silent server must be detected (the TLC counter-example of MC_RegionClient_c18_nonatomicdown).
 	for _, batched := range []bool{false, true} {
-		name := fmt.Sprintf("A2/clear-deadline-races-with-next-send/batched=%v", batched)
-		func() {
-			rt := 400 * time.Millisecond
-			var hold atomic.Bool
-			held, release := make(chan struct{}), make(chan struct{})
-			hook := func(op verifsim.Op) *verifsim.Fault {
-				if op.Kind == verifsim.OpReadDeadline && op.Time.IsZero() && hold.CompareAndSwap(true, false) {
-					close(held)
-					<-release
-				}
-				return nil
-			}
-			opts := rcOpts{queueSize: 1, readTimeout: rt, hook: hook}
-			if batched {
-				opts = rcOpts{queueSize: 2, flushInterval: time.Millisecond, readTimeout: rt, hook: hook}
-			}
-			env := newRCEnv(opts)
-			c1 := env.newCall("r1", "get", batched)
-			env.goQueue(c1)
-			var req *verifsim.Request
-			select {
-			case req = <-env.reqs:
-			case <-time.After(5 * time.Second):
-				rep.bad("harness:a2", "%s: the first request never reached the server", name)
-				return
-			}
-			time.Sleep(20 * time.Millisecond) // the sender is through inFlightUp
-			hold.Store(true)
-			if batched {
-				env.respondMulti(req, multiPlan{})
-			} else {
-				env.respondOK(req, 1, false)
-			}
-			select {
-			case <-held:
-			case <-time.After(5 * time.Second):
-				rep.bad("harness:a2", "%s: the reader never cleared the deadline", name)
-				return
-			}
-			c2 := env.newCall("r2", "get", batched)
-			env.goQueue(c2) // written; its inFlightUp waits for the mutex (or, without one, arms the deadline right away)
-			time.Sleep(100 * time.Millisecond)
-			close(release)
-			time.Sleep(100 * time.Millisecond)
-			select {
-			case <-env.reqs: // r2 is at the server, which stays silent
-			default:
-			}
-			env.quiesce() // r2 outstanding: the deadline must be armed
-			t0 := time.Now()
-			for time.Since(t0) < 10*rt && c2.count() == 0 {
-				time.Sleep(10 * time.Millisecond)
-			}
-			if c2.count() == 0 {
-				rep.bad("silent-server-not-detected", "%s: r2 is outstanding on a silent server and was not failed after %v (read timeout %v)", name, time.Since(t0), rt)
-			}
-			o.flush(name, env)
-			env.c.Close()
-			env.srv.Close()
-			close(env.stop)
-		}()
+		rcClearRacesWithSend(fmt.Sprintf("A2/clear-deadline-races-with-next-send/batched=%v", batched), batched, rep, o, "silent-server-not-detected")
 		rep.Distinct++
 	}
 
@@ -461,4 +401,69 @@ func TestVerifC18(t *testing.T) {
 		rep.Distinct++
 	}
 	_ = context.Background
+}
+
+// rcClearRacesWithSend forces, in real time, the TLC counter-example of MC_RegionClient_c18_nonatomicdown: the reader has
+// just counted the last outstanding response down to zero and is about to clear the read deadline while another request
+// is sent; the server then stays silent. The request that is outstanding must be completed by the read timeout (sig names
+// the violation for the property on whose behalf the schedule runs).
+func rcClearRacesWithSend(name string, batched bool, rep *rcReport, o *rcOut, sig string) {
+	rt := 400 * time.Millisecond
+	var hold atomic.Bool
+	held, release := make(chan struct{}), make(chan struct{})
+	hook := func(op verifsim.Op) *verifsim.Fault {
+		if op.Kind == verifsim.OpReadDeadline && op.Time.IsZero() && hold.CompareAndSwap(true, false) {
+			close(held)
+			<-release
+		}
+		return nil
+	}
+	opts := rcOpts{queueSize: 1, readTimeout: rt, hook: hook}
+	if batched {
+		opts = rcOpts{queueSize: 2, flushInterval: time.Millisecond, readTimeout: rt, hook: hook}
+	}
+	env := newRCEnv(opts)
+	c1 := env.newCall("r1", "get", batched)
+	env.goQueue(c1)
+	var req *verifsim.Request
+	select {
+	case req = <-env.reqs:
+	case <-time.After(5 * time.Second):
+		rep.bad("harness:a2", "%s: the first request never reached the server", name)
+		return
+	}
+	time.Sleep(20 * time.Millisecond) // the sender is through inFlightUp
+	hold.Store(true)
+	if batched {
+		env.respondMulti(req, multiPlan{})
+	} else {
+		env.respondOK(req, 1, false)
+	}
+	select {
+	case <-held:
+	case <-time.After(5 * time.Second):
+		rep.bad("harness:a2", "%s: the reader never cleared the deadline", name)
+		return
+	}
+	c2 := env.newCall("r2", "get", batched)
+	env.goQueue(c2) // written; its inFlightUp waits for the mutex (or, without one, arms the deadline right away)
+	time.Sleep(100 * time.Millisecond)
+	close(release)
+	time.Sleep(100 * time.Millisecond)
+	select {
+	case <-env.reqs: // r2 is at the server, which stays silent
+	default:
+	}
+	env.quiesce() // r2 outstanding: the deadline must be armed
+	t0 := time.Now()
+	for time.Since(t0) < 10*rt && c2.count() == 0 {
+		time.Sleep(10 * time.Millisecond)
+	}
+	if c2.count() == 0 {
+		rep.bad(sig, "%s: r2 is outstanding on a silent server and was not failed after %v (read timeout %v)", name, time.Since(t0), rt)
+	}
+	o.flush(name, env)
+	env.c.Close()
+	env.srv.Close()
+	close(env.stop)
 }
